@@ -92,7 +92,9 @@ _ADDR_TARGETS = [("struct-view-member", "s: S", "&s.x"), ("slice-of-structs-memb
 _ADDR_CTX = [("statement", "\tvar r = poke({a});\n"), ("index-of-read", "\tvar r = table[poke({a})];\n"), ("index-of-written", "\ttable[poke({a})] = 0;\n"), ("index-of-length", "\tvar r = |rows[poke({a})]|;\n"),
              ("cast", "\tvar r = poke({a}) as u64;\n"), ("argument", "\tvar r = id(poke({a}));\n"), ("binary", "\tvar r = 1 + poke({a});\n"), ("array-literal", "\tvar r = [poke({a}), 1];\n"),
              ("condition", "\tif poke({a}) == 0\n\t{{\n\t\ttable[0] = 1;\n\t}}\n"), ("nested-index", "\tvar r = table[id(table[poke({a})] as usize)];\n"), ("paren", "\tvar r = (poke({a}));\n"),
-             ("index-in-argument", "\tvar r = id(table[poke({a})] as usize);\n")]
+             ("index-in-argument", "\tvar r = id(table[poke({a})] as usize);\n"),
+             ("print-argument", "\tprint!(\"b \", poke({a}), \"\\n\");\n"), ("eprint-argument", "\teprint!(poke({a}));\n"), ("panic-argument", "\tpanic!(\"p\", poke({a}));\n"),
+             ("format-argument", "\tvar t = format!(\"f\", poke({a}));\n"), ("print-index-argument", "\tprint!(table[poke({a})]);\n")]
 for _tn, _par, _addr in _ADDR_TARGETS:
     for _cn, _ctx in _ADDR_CTX:
         INVALID.append(("address-of-%s-in-%s" % (_tn, _cn),
